@@ -192,6 +192,11 @@ func ruleNothingConsumedAtEnd(c *Ctx, rule string) {
 					var conds []string
 					for _, l := range domConds(fn, site.Block()) {
 						conds = append(conds, l.String())
+						// a decision on the way that this world would settle, were it not taken inside a function the folding cannot
+						// enter (`here.last()` on a record that holds the state): no witness
+						if w.get(l.Cond).k != 1 && dependsOnWorldThroughCall(c, l.Cond, w, []*ssa.Function{read, readAt, size}) {
+							res.state = "opaque"
+						}
 					}
 					res.conds = strings.Join(conds, " && ")
 				}
@@ -229,6 +234,8 @@ func ruleNothingConsumedAtEnd(c *Ctx, rule string) {
 			ob.OKnt("consumes reader.Size() bytes: the whole of an empty input is the empty match")
 		case "ok-progress":
 			ob.OKnt("the state only moves on when the offset changed across the call (progress test)")
+		case "opaque":
+			ob.Und(fmt.Sprintf("a decision in front of the call asks the reader through a function the folding cannot enter [path conditions: %s]", res.conds))
 		default:
 			ob.Bad(fmt.Sprintf("at the end of the input (every read returns \"\") the call is still reachable [path conditions: %s]: the primitive succeeds without consuming a byte, so a class matches the empty string there", res.conds))
 		}
@@ -1079,4 +1086,46 @@ func statusReadOf(v ssa.Value, psT types.Type, statusIdx int) bool {
 		}
 	}
 	return false
+}
+
+// dependsOnWorldThroughCall: the value depends on the result of a repository call that did not fold in the world and from which one
+// of the functions the world fixes (the reads, Size) is reachable.
+func dependsOnWorldThroughCall(c *Ctx, v ssa.Value, w *World, fixed []*ssa.Function) bool {
+	seen := map[ssa.Value]bool{}
+	found := false
+	var walk func(v ssa.Value, d int)
+	walk = func(v ssa.Value, d int) {
+		if v == nil || seen[v] || d > 10 || found {
+			return
+		}
+		seen[v] = true
+		if call, ok := v.(*ssa.Call); ok {
+			if sc := call.Call.StaticCallee(); sc != nil && c.isRepoFn(sc) && w.get(v).k != 1 {
+				direct := false
+				for _, f := range fixed {
+					if f != nil && sc == f {
+						direct = true
+					}
+				}
+				if !direct {
+					reach := c.Reachable(sc)
+					for _, f := range fixed {
+						if f != nil && reach[f] {
+							found = true
+							return
+						}
+					}
+				}
+			}
+		}
+		if in, ok := v.(ssa.Instruction); ok {
+			for _, op := range in.Operands(nil) {
+				if *op != nil {
+					walk(*op, d+1)
+				}
+			}
+		}
+	}
+	walk(v, 0)
+	return found
 }
